@@ -25,7 +25,7 @@ Several violated clauses are reported together, joined by `+`.  Classes, decided
                                 fall on different local dates and `TzLocation::event_time` keeps only the
                                 time of day (localize.rs:164-165)
   class=clock-change-between-events  the instants are ordered but some gap between two local times of day
-                                differs from the gap between the instants: the zone changed its offset between
+                                differs from the gap between the instants — decided on the zone data: the UTC offset of the zone is not the same at the four event instants; the zone changed its offset between
                                 two events of that day (then local times of day may be unordered or equal, and
                                 even noon-open can fail: the local clock runs through the same hours twice)
   class=tod-unordered           local times of day unordered for no reason visible on the line
@@ -140,23 +140,21 @@ def handle (op : String) (args impl : List String) : Option String :=
     | _, _ => none
   | "sun.events", [lat, _lon, day] =>
     match day.toInt?, impl with
-    | some day, _zone :: "U" :: u1 :: u2 :: u3 :: u4 :: "L" :: l1 :: l2 :: l3 :: l4 :: "O" :: o1 :: o2 :: o3 :: o4 :: "N" :: rest =>
-      match ints [u1, u2, u3, u4], nats [l1, l2, l3, l4], ints [o1, o2, o3, o4], pSide rest with
-      | some u, some l, some o, some ((nd, nm, np, nc, nst), "M" :: rest2) =>
+    | some day, _zone :: "U" :: u1 :: u2 :: u3 :: u4 :: "L" :: l1 :: l2 :: l3 :: l4 :: "O" :: o1 :: o2 :: o3 :: o4 :: "Z" :: z1 :: z2 :: z3 :: z4 :: "C" :: w1 :: w2 :: w3 :: w4 :: "N" :: rest =>
+      match ints [u1, u2, u3, u4], nats [l1, l2, l3, l4], ints [o1, o2, o3, o4], pSide rest, ints [z1, z2, z3, z4], nats [w1, w2, w3, w4] with
+      | some u, some l, some o, some ((nd, nm, np, nc, nst), "M" :: rest2), some z, some w =>
         match pSide rest2 with
         | some ((md, mm, mp, mc, mst), []) =>
           let instOK := ordered4 (fun (a b : Int) => decide (a < b)) u
           let todOK := ordered4 (fun (a b : Nat) => decide (a < b)) l
           let epoch := u.any (fun t => 0 ≤ t && t < 86400) && (day < 719000 || day > 719300)
           let sameDate := o.all (· == o.headD 0)
-          -- the clock changed between two events: a gap between local times of day differs (mod 24 h, ±1
-          -- minute of rounding) from the gap between the instants
-          let gapBad := fun (k : Nat) =>
-            let gl : Int := ((l.getD (k + 1) 0 : Int) - (l.getD k 0 : Int)) % 1440
-            let gu : Int := ((u.getD (k + 1) 0 - u.getD k 0) / 60) % 1440
-            let d := (gl - gu) % 1440
-            decide (d > 1 ∧ d < 1439)
-          let clockChange := instOK && (gapBad 0 || gapBad 1 || gapBad 2)
+          -- the clock changed between two events: the zone's UTC offset, read from the zone data (not from
+          -- what the library answered), is not the same at the four event instants
+          let clockChange := instOK && !z.all (· == z.headD 0)
+          -- every local event time is the minute its instant shows on the zone's clock (the UTC -> zone
+          -- conversion of localize.rs: "consistent with coordinates and zone"), clock change or not
+          let wallOK := l == w
           -- Triage of D17 against the property text ("physically ordered"): the local event times are the
           -- instants of the events read on the local clock; their ORDER is the order of the instants.  When
           -- the instants are ordered but an event falls on the next (or previous) local date — civil dusk
@@ -166,8 +164,10 @@ def handle (op : String) (args impl : List String) : Option String :=
           let dateWrap := instOK && !sameDate && !clockChange
           let clauses :=
             (if instOK then [] else ["ordered-instants"]) ++ (if todOK || dateWrap then [] else ["ordered-local"])
+            ++ (if wallOK then [] else ["local-is-instant-on-zone-clock"])
             ++ (if nst == "o" then [] else ["noon-open"]) ++ (if mst == "c" then [] else ["midnight-closed"])
           let classes :=
+            (if !wallOK then ["local-not-wallclock"] else []) ++
             (if !instOK then [if epoch then "no-event-epoch" else "instants-unordered"] else [])
             ++ (if !todOK && instOK then
                   [if clockChange then "clock-change-between-events"
@@ -183,18 +183,20 @@ def handle (op : String) (args impl : List String) : Option String :=
           else if mN != nst || mM != mst then some s!"disagree model={model}"
           else some (if dateWrap && !todOK then s!"ok events-date-wrap-{bandTag lat}" else s!"ok events-{bandTag lat}")
         | _ => none
-      | _, _, _, _ => none
+      | _, _, _, _, _, _ => none
     | _, _ => none
   | "sun.scan", [lat, _lon, _first, _stride, _last] =>
     match impl with
-    | _zone :: days :: "I" :: iu :: ie :: "L" :: l17 :: lcc :: lo :: "N" :: nn :: nncc :: "M" :: mn :: mncc :: "P" :: pn :: "W" :: _ =>
-      match nats [days, iu, ie, l17, lcc, lo, nn, nncc, mn, mncc, pn] with
-      | some [days, iu, ie, l17, lcc, lo, nn, nncc, mn, mncc, pn] =>
+    | _zone :: days :: "I" :: iu :: ie :: "L" :: l17 :: lcc :: lo :: "N" :: nn :: nncc :: "M" :: mn :: mncc :: "P" :: pn :: "X" :: lw :: "W" :: _ =>
+      match nats [days, iu, ie, l17, lcc, lo, nn, nncc, mn, mncc, pn, lw] with
+      | some [days, iu, ie, l17, lcc, lo, nn, nncc, mn, mncc, pn, lw] =>
         let clauses :=
           (if iu == 0 then [] else ["ordered-instants"]) ++ (if lcc + lo == 0 then [] else ["ordered-local"])
+          ++ (if lw == 0 then [] else ["local-is-instant-on-zone-clock"])
           ++ (if nn == 0 then [] else ["noon-open"]) ++ (if mn == 0 then [] else ["midnight-closed"])
           ++ (if pn == 0 then [] else ["no-panic"])
         let classes :=
+          (if lw != 0 then ["local-not-wallclock"] else []) ++
           (if ie != 0 then ["no-event-epoch"] else []) ++ (if iu > ie then ["instants-unordered"] else [])
           ++ (if lcc + nncc + mncc != 0 then ["clock-change-between-events"] else [])
           ++ (if lo != 0 && iu == 0 then ["tod-unordered"] else [])
